@@ -36,6 +36,7 @@
 #include <sys/mman.h>
 #include <sys/socket.h>
 #include <atomic>
+#include <unordered_map>
 #include <fstream>
 #include <sstream>
 #include <cstring>
@@ -269,31 +270,10 @@ static std::string hidden()
   return s;
 }
 
-// ------------------------------------------------------------------------------------------------ shared arena
-struct Arena {
-  std::atomic<long> paths, states, transitions, next_sid, logpos, aborted;
-  static const long TABLE = 1 << 20; std::atomic<unsigned long> key[TABLE]; std::atomic<long> val[TABLE];
-  static const long LOGSZ = 256L << 20; char log[LOGSZ];
-};
-static Arena* AR;
-static bool stateful = true; static long maxstates = 2000000;
-static void emit(const std::string& line)
-{
-  long pos = AR->logpos.fetch_add(line.size() + 1);
-  if (pos + (long)line.size() + 1 >= Arena::LOGSZ) { AR->aborted = 1; return; }
-  memcpy(AR->log + pos, line.data(), line.size()); AR->log[pos + line.size()] = '\n';
-}
-static long lookup_or_insert(const std::string& fp, bool* is_new)
-{
-  unsigned long h = std::hash<std::string>{}(fp) | 1; // 64-bit hash; collisions are reported by the conformance walk (canon-on-replay)
-  unsigned long idx = (h >> 1) & (Arena::TABLE - 1);
-  for (;;) {
-    unsigned long cur = AR->key[idx].load();
-    if (cur == h) { *is_new = false; long v; while ((v = AR->val[idx].load()) == 0) {} return v - 1; }
-    if (cur == 0) { unsigned long z = 0; if (AR->key[idx].compare_exchange_strong(z, h)) { long sid = AR->next_sid++; AR->val[idx] = sid + 1; *is_new = true; return sid; } continue; }
-    idx = (idx + 1) & (Arena::TABLE - 1);
-  }
-}
+// ------------------------------------------------------------------------------------------------ exploration by re-execution
+// No fork per transition (fork is pathologically slow in this sandbox): a state is reached by re-creating the Engine inside the
+// same process and re-executing the choice prefix that leads to it (engine set-up + tear-down ~2 ms).  One child process per
+// *program* only, so that a crash of the kernel under test is confined to that program.
 static int SOCK[2]; static mc::Channel *APP, *CHK;
 static std::string transition_text(kernel::actor::ActorImpl* a)
 {
@@ -302,52 +282,22 @@ static std::string transition_text(kernel::actor::ActorImpl* a)
   mc::TransitionPtr t = mc::deserialize_transition((unsigned)a->get_pid(), a->get_restart_count(), *CHK); t->deserialize_memory_tracker(*CHK);
   return t->to_string(false);
 }
-static bool want_ttext = false;
-
-// returns sid of the current state
-static long explore(long depth)
-{
-  auto en = enabled_list();
-  std::string st = canonical();
-  std::string es = "|E:";
-  for (size_t i = 0; i < en.size(); i++) es += (i ? "," : "") + std::to_string(en[i].a->get_pid()) + "/" + std::to_string(en[i].maxc);
-  bool is_new = true; long sid;
-  if (stateful) sid = lookup_or_insert(st + hidden() + es, &is_new); else sid = AR->next_sid++;
-  if (!is_new) return sid;
-  AR->states++;
-  emit("S " + std::to_string(sid) + " " + st + es);
-  if (AR->states > maxstates) { AR->aborted = 2; return sid; }
-  if (en.empty() || assertion_failed) { AR->paths++; return sid; }
-  // list of (actor, k) choices
-  std::vector<std::pair<kernel::actor::ActorImpl*, int>> ch;
-  for (auto& e : en) for (int k = 0; k < e.maxc; k++) ch.push_back({e.a, k});
-  for (size_t i = 0; i < ch.size(); i++) {
-    bool last = i + 1 == ch.size(); pid_t p = 0;
-    if (!last) { fflush(stdout); p = fork(); if (p < 0) { perror("fork"); AR->aborted = 3; return sid; } }
-    if (last || p == 0) {
-      auto* a = ch[i].first; int k = ch[i].second; long pid = a->get_pid();
-      AR->transitions++;
-      handle(a, k);
-      std::string tt = want_ttext ? transition_text(a) : std::string("-");
-      quiesce();
-      long to = explore(depth + 1);
-      emit("T " + std::to_string(sid) + " " + std::to_string(pid) + "/" + std::to_string(k) + " " + std::to_string(to) + " " + tt);
-      if (!last) _exit(0);
-    } else {
-      int status; waitpid(p, &status, 0);
-      if (!WIFEXITED(status) || WEXITSTATUS(status) != 0) {
-        emit("X " + std::to_string(sid) + " " + std::to_string(ch[i].first->get_pid()) + "/" + std::to_string(ch[i].second) + " child-status=" + std::to_string(status));
-        AR->aborted = 4; }
-    }
-  }
-  return sid;
-}
+static bool want_ttext = false, stateful = true; static long maxstates = 2000000;
+static sg4::Engine* ENG = nullptr;
+static std::vector<sg4::MutexPtr> g_mutexes; static std::vector<sg4::SemaphorePtr> g_sems; static std::vector<sg4::ConditionVariablePtr> g_cvs; static std::vector<sg4::BarrierPtr> g_bars;
 
 static void setup(const Program& p, int* argc, char** argv)
 {
   PG = &p;
-  static sg4::Engine e(argc, argv);
-  auto* zone = e.get_netzone_root()->add_netzone_full("z");
+  kernel::actor::ActorIDTrait::maxpid_ = 0;
+  kernel::activity::MutexImpl::next_id_ = 0; kernel::activity::SemaphoreImpl::next_id_ = 0; kernel::activity::ConditionVariableImpl::next_id_ = 0;
+  kernel::activity::BarrierImpl::next_id_ = 0; kernel::activity::MailboxImpl::next_id_ = 0; kernel::activity::CommImpl::next_id_ = 0;
+  for (auto& a : AS) a = AState();
+  assertion_failed = false; payload_n = 0; match_n = 0;
+  for (auto& c : child_template_of) c = 0;
+  mutexes.clear(); sems.clear(); cvs.clear(); bars.clear(); mboxes.clear(); mqs.clear();
+  ENG = new sg4::Engine(argc, argv);
+  auto* zone = ENG->get_netzone_root()->add_netzone_full("z");
   HOST = zone->add_host("h", 1e9);
   zone->seal();
   for (int r : p.mutex_rec) mutexes.push_back(sg4::Mutex::create(r != 0));
@@ -360,6 +310,78 @@ static void setup(const Program& p, int* argc, char** argv)
   for (size_t i = 0; i < p.actors.size(); i++) { AS[i + 1].ops = &p.actors[i]; HOST->add_actor("a" + std::to_string(i + 1), [i] { run_ops(i + 1); }); }
   EI = kernel::EngineImpl::get_instance();
 }
+static void teardown()
+{ // kill whatever is left (blocked actors), then destroy the engine; objects with pending acquisitions are leaked on purpose
+  EI->get_maestro()->kill_all(); EI->run_all_actors(); EI->empty_trash();
+  static std::vector<sg4::CommPtr> g_comms; static std::vector<sg4::MessPtr> g_mess; // leaked: no destructor path is exercised by the harness itself
+  for (auto& a : AS) { for (auto& c : a.comm) if (c) { g_comms.push_back(c); c = nullptr; } for (auto& m : a.mess) if (m) { g_mess.push_back(m); m = nullptr; } }
+  static std::vector<kernel::activity::CommImplPtr> g_ci; static std::vector<kernel::activity::MessImplPtr> g_mi;
+  for (auto* mb : mboxes) { auto* m = mb->get_impl(); for (auto& c : m->comm_queue_) { c->mbox_ = nullptr; g_ci.push_back(c); } for (auto& c : m->done_comm_queue_) { c->mbox_ = nullptr; g_ci.push_back(c); } m->comm_queue_.clear(); m->done_comm_queue_.clear(); }
+  for (auto* q : mqs) { auto* m = q->get_impl(); for (auto& c : m->queue_) { c->queue_ = nullptr; g_mi.push_back(c); } m->queue_.clear(); }
+  for (auto& m : mutexes) g_mutexes.push_back(m); for (auto& m : sems) g_sems.push_back(m); for (auto& m : cvs) g_cvs.push_back(m); for (auto& m : bars) g_bars.push_back(m);
+  if (g_mutexes.size() > 100000) _exit(5);
+  delete ENG; ENG = nullptr;
+}
+
+typedef std::vector<std::pair<long, int>> Path;
+static FILE* OUT;
+static std::unordered_map<std::string, long> seen;
+static long n_states, n_trans, n_paths, n_exec, next_sid; static int aborted;
+static char* CURPATH; // shared page: the prefix being executed, so that the parent can name the schedule of a crash
+static std::string path_str(const Path& p) { std::string s; for (auto& [a, k] : p) { if (!s.empty()) s += ";"; s += std::to_string(a); if (k) s += "/" + std::to_string(k); } return s; }
+struct Work { Path prefix; long from; };
+
+static std::string enabled_str(const std::vector<En>& en)
+{ std::string es = "|E:"; for (size_t i = 0; i < en.size(); i++) es += (i ? "," : "") + std::to_string(en[i].a->get_pid()) + "/" + std::to_string(en[i].maxc); return es; }
+
+static void explore_program(const Program& p, char* argv0)
+{
+  std::vector<Work> stack; stack.push_back({{}, -1});
+  while (!stack.empty() && !aborted) {
+    Work w = stack.back(); stack.pop_back();
+    char logopt[] = "--log=root.thres:critical"; int ac = 2; char* av[] = {argv0, logopt, nullptr};
+    setup(p, &ac, av); n_exec++;
+    quiesce();
+    Path cur; long from = -1; std::pair<long, int> lab{0, 0}; std::string tt;
+    // 1. re-execute the prefix (all but its last transition lead through states already emitted)
+    bool ok = true;
+    for (size_t i = 0; i < w.prefix.size() && ok; i++) {
+      auto en = enabled_list();
+      if (i + 1 == w.prefix.size()) { // determinism check: the state we branch from must be the one recorded
+        if (stateful) { auto it = seen.find(canonical() + hidden() + enabled_str(en)); if (it == seen.end() || it->second != w.from) { fprintf(OUT, "X replay-divergence %s\n", path_str(w.prefix).c_str()); aborted = 5; ok = false; break; } }
+        from = w.from; lab = w.prefix[i];
+      }
+      kernel::actor::ActorImpl* a = nullptr; for (auto& e : en) if (e.a->get_pid() == w.prefix[i].first && w.prefix[i].second < e.maxc) a = e.a;
+      if (!a) { fprintf(OUT, "X replay-not-enabled %s\n", path_str(w.prefix).c_str()); aborted = 5; ok = false; break; }
+      cur.push_back(w.prefix[i]); strncpy(CURPATH, path_str(cur).c_str(), 4000);
+      handle(a, w.prefix[i].second);
+      if (i + 1 == w.prefix.size()) { n_trans++; if (want_ttext) tt = transition_text(a); }
+      quiesce();
+    }
+    // 2. walk on with the first choice until a known state or a terminal one
+    while (ok) {
+      auto en = enabled_list();
+      std::string st = canonical(), es = enabled_str(en);
+      bool is_new = true; long sid;
+      if (stateful) { auto [it, ins] = seen.emplace(st + hidden() + es, next_sid); is_new = ins; sid = it->second; if (ins) next_sid++; } else sid = next_sid++;
+      if (from >= 0) fprintf(OUT, "T %ld %ld/%d %ld %s\n", from, lab.first, lab.second, sid, tt.empty() ? "-" : tt.c_str());
+      if (!is_new) break;
+      n_states++;
+      fprintf(OUT, "S %ld %s%s\n", sid, st.c_str(), es.c_str());
+      if (n_states > maxstates) { aborted = 2; break; }
+      if (en.empty() || assertion_failed) { n_paths++; break; }
+      std::vector<std::pair<kernel::actor::ActorImpl*, int>> ch;
+      for (auto& e : en) for (int k = 0; k < e.maxc; k++) ch.push_back({e.a, k});
+      for (size_t i = ch.size(); i-- > 1;) { Work nw; nw.prefix = cur; nw.prefix.push_back({ch[i].first->get_pid(), ch[i].second}); nw.from = sid; stack.push_back(std::move(nw)); }
+      from = sid; lab = {ch[0].first->get_pid(), ch[0].second};
+      cur.push_back(lab); strncpy(CURPATH, path_str(cur).c_str(), 4000);
+      handle(ch[0].first, ch[0].second); n_trans++;
+      tt = want_ttext ? transition_text(ch[0].first) : std::string();
+      quiesce();
+    }
+    teardown();
+  }
+}
 
 extern "C" const char* simgrid_verif_fingerprint(void)
 { // H1 hook (AppSide) calls this through dlsym to log the application-level state under simgrid-mc
@@ -368,7 +390,7 @@ extern "C" const char* simgrid_verif_fingerprint(void)
 
 int main(int argc, char** argv)
 {
-  if (argc < 3) { fprintf(stderr, "usage: vx explore|run|pairs ...\n"); return 2; }
+  if (argc < 3) { fprintf(stderr, "usage: vx explore|run|replay ...\n"); return 2; }
   std::string mode = argv[1];
   auto progs = parse(argv[2]);
   if (mode == "run") { // normal main: used under simgrid-mc, with --cfg=model-check/replay, and in plain (non-MC) runs
@@ -376,20 +398,19 @@ int main(int argc, char** argv)
     setup(progs.at(idx), &ac, av);
     sg4::Engine::get_instance()->run();
     printf("FINAL %s\n", canonical().c_str()); fflush(stdout);
-    return 0;
+    _exit(0);
   }
-  if (mode == "replay") { // vx replay <file> <index> <aid/k;aid/k;...> : one schedule, no fork, state printed after each step
-    MC_record_path() = "verif";
-    simgrid::mc::set_model_checking_mode(simgrid::mc::ModelCheckingMode::REPLAY);
+  MC_record_path() = "verif";
+  simgrid::mc::set_model_checking_mode(simgrid::mc::ModelCheckingMode::REPLAY);
+  socketpair(AF_UNIX, SOCK_STREAM, 0, SOCK); APP = new mc::Channel(SOCK[0]); CHK = new mc::Channel(SOCK[1]);
+  if (mode == "replay") { // vx replay <file> <index> <aid/k;aid/k;...> : one schedule, state printed after each step
     int ac = 1; char* av[] = {argv[0], nullptr};
     setup(progs.at(atoi(argv[3])), &ac, av);
-    socketpair(AF_UNIX, SOCK_STREAM, 0, SOCK); APP = new mc::Channel(SOCK[0]); CHK = new mc::Channel(SOCK[1]);
     quiesce();
     std::string sched = argc > 4 ? argv[4] : ""; size_t pos = 0; int step = 0;
     for (;;) {
-      auto en = enabled_list(); std::string es = "|E:";
-      for (size_t i = 0; i < en.size(); i++) es += (i ? "," : "") + std::to_string(en[i].a->get_pid()) + "/" + std::to_string(en[i].maxc);
-      printf("S %d %s%s\n", step, canonical().c_str(), es.c_str()); fflush(stdout);
+      auto en = enabled_list();
+      printf("S %d %s%s\n", step, canonical().c_str(), enabled_str(en).c_str()); fflush(stdout);
       if (pos >= sched.size()) break;
       size_t e = sched.find(';', pos); std::string tok = sched.substr(pos, e == std::string::npos ? std::string::npos : e - pos); pos = e == std::string::npos ? sched.size() : e + 1;
       long aid = atol(tok.c_str()); int k = tok.find('/') != std::string::npos ? atoi(tok.c_str() + tok.find('/') + 1) : 0;
@@ -400,34 +421,37 @@ int main(int argc, char** argv)
     }
     fflush(stdout); _exit(0);
   }
+  // explore
   const char* out = argv[3];
   if (argc > 4) stateful = std::string(argv[4]) != "stateless";
   if (argc > 5) maxstates = atol(argv[5]);
   want_ttext = getenv("VX_TTEXT") != nullptr;
-  FILE* fo = fopen(out, "w");
   double deadline = getenv("VX_DEADLINE") ? atof(getenv("VX_DEADLINE")) : 0;
-  for (auto& p : progs) {
-    if (deadline > 0 && (double)time(nullptr) > deadline) { fprintf(fo, "P %s\nR 0 0 0 SKIP\n", p.id.c_str()); continue; }
-    // a fresh (lazily zeroed) shared arena per program
-    AR = (Arena*)mmap(nullptr, sizeof(Arena), PROT_READ | PROT_WRITE, MAP_SHARED | MAP_ANONYMOUS | MAP_NORESERVE, -1, 0);
-    if (AR == MAP_FAILED) { perror("mmap"); return 2; }
-    pid_t c = getenv("VX_INPROC") ? 0 : fork();
+  CURPATH = (char*)mmap(nullptr, 8192, PROT_READ | PROT_WRITE, MAP_SHARED | MAP_ANONYMOUS, -1, 0);
+  long* progress = (long*)(CURPATH + 4096); // index of the program being explored by the worker child
+  FILE* fo = fopen(out, "w");
+  size_t start = 0;
+  while (start < progs.size()) { // one worker child for as many programs as it survives: a crash only loses the program it occurred in
+    *progress = start; fflush(fo);
+    pid_t c = fork();
     if (c == 0) {
-      MC_record_path() = "verif";
-      simgrid::mc::set_model_checking_mode(simgrid::mc::ModelCheckingMode::REPLAY);
-      int ac = 1; char* av[] = {argv[0], nullptr};
-      setup(p, &ac, av);
-      socketpair(AF_UNIX, SOCK_STREAM, 0, SOCK); APP = new mc::Channel(SOCK[0]); CHK = new mc::Channel(SOCK[1]);
-      quiesce();
-      explore(0);
-      _exit(0);
+      OUT = fo;
+      for (size_t i = start; i < progs.size(); i++) {
+        *progress = i; CURPATH[0] = 0;
+        fprintf(fo, "P %s\n", progs[i].id.c_str()); fflush(fo);
+        if (deadline > 0 && (double)time(nullptr) > deadline) { fprintf(fo, "R 0 0 0 SKIP\n"); continue; }
+        seen.clear(); n_states = n_trans = n_paths = n_exec = next_sid = 0; aborted = 0;
+        explore_program(progs[i], argv[0]);
+        fprintf(fo, "R %ld %ld %ld %s %ld\n", n_paths, n_states, n_trans, aborted ? ("ABORT" + std::to_string(aborted)).c_str() : "OK", n_exec);
+        fflush(fo);
+      }
+      fflush(fo); _exit(0);
     }
     int status; waitpid(c, &status, 0);
-    fprintf(fo, "P %s\n", p.id.c_str());
-    fwrite(AR->log, 1, std::min<long>(AR->logpos.load(), Arena::LOGSZ), fo);
-    fprintf(fo, "R %ld %ld %ld %s\n", AR->paths.load(), AR->states.load(), AR->transitions.load(),
-            (!WIFEXITED(status) || WEXITSTATUS(status)) ? "CRASH" : AR->aborted.load() ? ("ABORT" + std::to_string(AR->aborted.load())).c_str() : "OK");
-    munmap(AR, sizeof(Arena));
+    fseek(fo, 0, SEEK_END);
+    if (WIFEXITED(status) && WEXITSTATUS(status) == 0) break;
+    fprintf(fo, "\nX crash status=%d schedule=%s\nR 0 0 0 CRASH\n", status, CURPATH); fflush(fo);
+    start = *progress + 1;
   }
   fclose(fo);
   return 0;
